@@ -53,3 +53,29 @@ Example C01_lowering_example :
   rearrange_ok din dout = true /\
   lower_rearrange 0 din dout = MReshape (MTranspose (MReshape (MIn 0 [2; 12]) [2; 3; 4]) [2; 0; 1]%nat) [8; 3].
 Proof. vm_compute. split; reflexivity. Qed.
+
+(* Element-wise operations.  Model/Lower.v ([lower_align], [lower_elementwise]): every input is reshaped to its leaf axes,
+   transposed into the leaf order of the output and reshaped with a length-1 dimension wherever it lacks an output axis;
+   the backend's broadcasting operation pairs the aligned tensors and a final reshape gives the output dimensions.  For all
+   expressions that only nest flattened axes (distinct names, every input axis an output axis of the same length), every
+   in-bounds loop environment and every element: the element the input holds at the environment's position is found in the
+   aligned tensor at the output's leaf coordinates, with 0 where the input has no such axis - i.e. exactly where numpy's
+   broadcasting looks for the operand of the output element at that environment.  (Broadcasting and the elementary operation
+   themselves are numpy's; the final reshape is the rearrangement theorem above.)  The correspondence check compares the whole
+   traced graph of such calls with [lower_elementwise] through the extracted equivalence checker. *)
+Theorem C01_elementwise_alignment_is_the_meaning :
+  forall (V : Type) (inp : nat -> entries V) F BC CC (din dout : list pex),
+  align_ok din dout = true ->
+  forall (k : nat) (rho : env) (v : V),
+  in_bounds rho din ->
+  In (map (pidx rho) din, v) (inp k) ->
+  In (aligned_idx din dout rho, v) (meval V inp F BC CC (lower_align k din dout)).
+Proof. intros V inp F BC CC din dout Hok k rho v. exact (lower_align_correct V inp F BC CC din dout Hok k rho v). Qed.
+Print Assumptions C01_elementwise_alignment_is_the_meaning.
+
+Example C01_alignment_example :
+  (* "c" aligned to the output "(a c) b" of lengths 2, 4, 3: shape (1, 4, 1) *)
+  let din := [PAx 3 4 false] in
+  let dout := [PFl [PAx 1 2 false; PAx 3 4 false]; PAx 2 3 false] in
+  align_ok din dout = true /\ bshape din dout = [1; 4; 1] /\ aligned_idx din dout [(3, 2)] = [0; 2; 0].
+Proof. vm_compute. repeat split; reflexivity. Qed.
